@@ -176,21 +176,25 @@ class ThreadWorld:
         threads_first = cfg.get('order') == 'threads_first'
 
         self.ref_lines = 0
+        self.ref_lookup_lines = 0
 
         def reference_pass():
             # every call of every actor alone, in program order, same process
             for aid, prog in enumerate(actors):
                 if aid == 0:
-                    n = [0]
+                    n = [0, 0]
 
                     def count(code, line):
                         n[0] += 1
+                        if code in K._lookup_codes:
+                            n[1] += 1
                     K.line_hook = count
                     try:
                         self.expected[aid] = [corpus.run_call(c) for c in prog]
                     finally:
                         K.line_hook = None
                     self.ref_lines = n[0]
+                    self.ref_lookup_lines = n[1]
                     continue
                 self.expected[aid] = [corpus.run_call(c) for c in prog]
             if globals_digest(ids=not cold_import, skip=skip, deep_versions=used) != g0:
@@ -208,7 +212,10 @@ class ThreadWorld:
             k.sweep_at = cfg['sweep_at']
         if case.get('schedule') is None and cfg.get('sweep_frac') is not None and self.ref_lines:
             # position measured on the sequential reference pass of actor 0
-            k.sweep_thread_lines = max(1, int(cfg['sweep_frac'] * self.ref_lines))
+            if cfg.get('sweep_kind') == 'lookup' and self.ref_lookup_lines:
+                k.sweep_lookup_at = int(cfg['sweep_frac'] * self.ref_lookup_lines)
+            else:
+                k.sweep_thread_lines = max(1, int(cfg['sweep_frac'] * self.ref_lines))
         try:
             for aid, prog in enumerate(actors):
                 k.spawn(self._actor, (aid, prog), label='actor%d' % aid)
